@@ -69,6 +69,26 @@ def PSys.repliesOn (quota period : Nat) (k : String) : PSys → List POp → Lis
     (if op = .take k then (s.step quota period op).2.toList else [])
       ++ PSys.repliesOn quota period k (s.step quota period op).1 ops
 
+/-- the period specification as a system: lives per key, the store clock, reachability -/
+structure SpecSys where
+  sp    : Spec.PSpec
+  clock : Nat
+  up    : Bool
+
+def SpecSys.init : SpecSys := ⟨[], 0, true⟩
+
+def SpecSys.step (quota period : Nat) (t : SpecSys) : POp → SpecSys × Option (Code × PErr)
+  | .ft ms => ({ t with clock := t.clock + ms }, none)
+  | .take k =>
+    if t.up then ({ t with sp := (Spec.ptake quota period t.sp t.clock k).1 }, some ((Spec.ptake quota period t.sp t.clock k).2, .nil))
+    else (t, some (.unknown, .store))
+  | .down => ({ t with up := false }, none)
+  | .up => ({ t with up := true }, none)
+
+def SpecSys.run (quota period : Nat) : SpecSys → List POp → List (Option (Code × PErr))
+  | _, [] => []
+  | t, op :: ops => (t.step quota period op).2 :: SpecSys.run quota period (t.step quota period op).1 ops
+
 def noDown (ops : List POp) : Prop := ∀ o ∈ ops, o ≠ POp.down
 
 /-- is this reply of `Take` a grant? -/
